@@ -26,7 +26,7 @@ private theorem inv_of_ready_select (d : DF) (hi : Inv d) (hr : Ready d) (items 
 /-- One public method call: the model's result is the specification's result, and the clause-order
     invariant is re-established.  (`hno`: an `orderBy` does not directly follow an `orderBy`.) -/
 theorem C01_step (d : DF) (s : Step) (h : Inv d) (hs : s.WF d.eval.cols)
-    (hno : s.isOrderBy = true → d.last ≠ .orderBy) :
+    (hno : s.isOrderBy = true → d.last ≠ .orderBy) (hin : s.inTheorem = true) :
     (d.apply s).eval = specStep d.eval s ∧ Inv (d.apply s) ∧
       (s.isOrderBy = false → (d.apply s).last ≠ .orderBy) := by
   cases s with
@@ -126,19 +126,58 @@ theorem C01_step (d : DF) (s : Step) (h : Inv d) (hs : s.WF d.eval.cols)
     · refine inv_of_ready_select _ hi2 hr2 (fillItems d.eval.cols v sub) ?_ _ (by simp [bodySelect, selectAppendDefault])
       rw [fillItems_names, ← he, ready_eval _ hi hr]; exact hi.1.1
 
+  | replace old new sub =>
+    have hop : Op.select ≠ Op.noOp := by decide
+    obtain ⟨hi, he⟩ := enter_inv .select d h
+    have hr := enter_ready .select hop (by decide) d h
+    obtain ⟨hi2, he2⟩ := enter_inv .select (enter .select d) hi
+    have hr2 := enter_ready .select hop (by decide) (enter .select d) hi
+    have hcols : (enter .select d).outNames = d.eval.cols := by
+      rw [ready_outNames _ hr, ← he, ready_eval _ hi hr]
+    simp only [DF.apply, tag_replace, tag_select, wrapper_eq _ hop, specStep, hcols]
+    refine ⟨?_, ?_, fun _ => by simp⟩
+    · rw [← he, ← he2]; exact clause_select _ hi2 hr2 _
+    · refine inv_of_ready_select _ hi2 hr2 (replaceItems d.eval.cols old new sub) ?_ _ (by simp [bodySelect, selectAppendDefault])
+      rw [replaceItems_names, ← he, ready_eval _ hi hr]; exact hi.1.1
+  | toDF names =>
+    have hop : Op.select ≠ Op.noOp := by decide
+    obtain ⟨hi, he⟩ := enter_inv .select d h
+    have hr := enter_ready .select hop (by decide) d h
+    have hcols : (enter .select d).src.cols = d.eval.cols := by
+      rw [← he, ready_eval _ hi hr]
+    have hsel : toDFItems (enter .select d).blk.sel names
+        = List.zipWith (fun c n => (n, Expr.col c)) d.eval.cols names := by
+      rw [hr.1, toDFItems_ident, hcols]
+    simp only [DF.apply, tag_toDF, wrapper_eq _ hop, specStep, hsel]
+    have hb : ({ (enter .select d) with blk := { (enter .select d).blk with sel := List.zipWith (fun c n => (n, Expr.col c)) d.eval.cols names } } : DF)
+        = bodySelect (List.zipWith (fun c n => (n, Expr.col c)) d.eval.cols names) (enter .select d) := by
+      simp [bodySelect, selectAppendDefault]
+    have hcl := clause_select _ hi hr (List.zipWith (fun c n => (n, Expr.col c)) d.eval.cols names)
+    rw [he] at hcl
+    refine ⟨?_, ?_, fun _ => by simp⟩
+    · show (({ (enter .select d) with blk := { (enter .select d).blk with sel := List.zipWith (fun c n => (n, Expr.col c)) d.eval.cols names }, last := Op.select } : DF)).eval = _
+      have e1 : (({ (enter .select d) with blk := { (enter .select d).blk with sel := List.zipWith (fun c n => (n, Expr.col c)) d.eval.cols names }, last := Op.select } : DF)).eval
+          = (bodySelect (List.zipWith (fun c n => (n, Expr.col c)) d.eval.cols names) (enter .select d)).eval := by
+        simp [bodySelect, selectAppendDefault, DF.eval]
+      rw [e1, hcl]
+    · refine inv_of_ready_select _ hi hr (List.zipWith (fun c n => (n, Expr.col c)) d.eval.cols names) ?_ _ rfl
+      rw [zipWith_names _ _ hs.1]; exact hs.2
+  | dropna howAll thresh sub => simp [Step.inTheorem] at hin
+
 /-- chains from any state satisfying the invariant -/
 theorem C01_run (steps : List Step) : ∀ (d : DF), Inv d → StepsWF d.eval steps →
-    noAdjacentOrderBy steps = true →
+    noAdjacentOrderBy steps = true → steps.all Step.inTheorem = true →
     ((∃ k rest, steps = Step.orderBy k :: rest) → d.last ≠ .orderBy) →
     (d.run steps).eval = specRun d.eval steps := by
   induction steps with
-  | nil => intro d _ _ _ _; rfl
+  | nil => intro d _ _ _ _ _; rfl
   | cons s ss ih =>
-    intro d h hwf hadj hfirst
+    intro d h hwf hadj hall hfirst
+    have hall' : s.inTheorem = true ∧ ss.all Step.inTheorem = true := by simpa using hall
     have hno : s.isOrderBy = true → d.last ≠ .orderBy := by
       intro hs; cases s <;> simp [Step.isOrderBy] at hs
       exact hfirst ⟨_, _, rfl⟩
-    obtain ⟨he, hi, hl⟩ := C01_step d s h hwf.1 hno
+    obtain ⟨he, hi, hl⟩ := C01_step d s h hwf.1 hno hall'.1
     simp only [DF.run, specRun, List.foldl_cons]
     have hwf' : StepsWF (d.apply s).eval ss := by rw [he]; exact hwf.2
     have hadj' : noAdjacentOrderBy ss = true := by
@@ -150,20 +189,20 @@ theorem C01_run (steps : List Step) : ∀ (d : DF), Inv d → StepsWF d.eval ste
       apply hl
       simp [noAdjacentOrderBy, Step.isOrderBy] at hadj
       cases s <;> simp_all [Step.isOrderBy]
-    have := ih (d.apply s) hi hwf' hadj' hfirst'
+    have := ih (d.apply s) hi hwf' hadj' hall'.2 hfirst'
     simp only [DF.run, specRun] at this
     rw [this, he]
 
 /-- **C01 (proved part).** For every well-formed input table, every chain — of any length, in any
-    order — of where / select / withColumn / withColumnRenamed / drop / distinct / orderBy / limit /
-    fillna steps that PySpark accepts, the SQL pipeline sqlframe builds evaluates (under Core/Sql's
+    order — of where / select / withColumn / withColumnRenamed / drop / toDF / distinct / orderBy / limit /
+    fillna / replace steps that PySpark accepts, the SQL pipeline sqlframe builds evaluates (under Core/Sql's
     clause order) to exactly the table obtained by applying the steps one after another. -/
 theorem C01_partial (T : Table) (steps : List Step) (hT : T.WF) (hs : StepsWF T steps)
-    (hsc : noAdjacentOrderBy steps = true) :
+    (hsc : noAdjacentOrderBy steps = true) (hin : steps.all Step.inTheorem = true) :
     ((DF.init T).run steps).eval = specRun T steps := by
   have hf := init_fresh T hT
   have he : (DF.init T).eval = T := fresh_eval _ hf
-  have := C01_run steps (DF.init T) hf.inv (by rw [he]; exact hs) hsc (fun _ => by simp [DF.init])
+  have := C01_run steps (DF.init T) hf.inv (by rw [he]; exact hs) hsc hin (fun _ => by simp [DF.init])
   rw [this, he]
 
 /-- The pattern excluded from `C01_partial`: a second `orderBy` *replaces* the first — the result is
@@ -201,14 +240,14 @@ instance decStepsWF : (T : Table) → (steps : List Step) → Decidable (StepsWF
   | _, [] => Decidable.isTrue trivial
   | T, s :: ss => by unfold StepsWF; exact @instDecidableAnd _ _ _ (decStepsWF (specStep T s) ss)
 
-example : exTable.WF ∧ StepsWF exTable exSteps ∧ noAdjacentOrderBy exSteps = true := by decide
+example : exTable.WF ∧ StepsWF exTable exSteps ∧ noAdjacentOrderBy exSteps = true ∧ exSteps.all Step.inTheorem = true := by decide
 example : ((DF.init exTable).run exSteps).eval = { cols := ["x", "z"], rows := [[.int 1, .int 8]] } := by decide
 
 /-! ### the full statement, for the record
 
 C01 as given quantifies over *all* single-input transformations.  `C01_partial` proves it for the
-nine step kinds above.  Not covered by a theorem (they are exercised only by the correspondence
-stream, implementation vs executable specification): `dropna`, `replace`, `unpivot`,
+eleven step kinds above.  Not covered by a theorem (they are exercised only by the correspondence
+stream, implementation vs executable specification): `dropna` (modelled, `Step.inTheorem = false`), `unpivot`,
 `dropDuplicates(subset)`, `groupBy().agg()` as a step (see C06), expression order keys, and the
 tie order of a second `orderBy` (see `C01_orderBy_twice`). -/
 def C01_full_statement : Prop :=
